@@ -11,7 +11,7 @@ use std::ffi::OsString;
 
 pub static DEF: PropDef = PropDef {
     id: "C05",
-    rule: "exhaustive: every string up to the stated length over {a,SP,TAB,NL,',\",\\,é} x EVERY cut set of its byte stream (each string is one case, evaluations count string x cut-set pairs); random: byte strings up to ~20 KiB (tokens straddling the 4096-byte refill edge, long quoted runs, arbitrary bytes incl. invalid UTF-8, CR/FF/VT) x generated chunkings (1-byte, after-backslash, inside quotes, inside multi-byte characters, 4096-aligned), default mode and -0/-d C. Oracles: (i) chunking invariance against the single-read result, (ii) reference splitter written from the statement on its specified sub-domain, (iii) delimiter mode = non-empty fields, bytes unchanged; 1 in 30 random inputs also through the xargs binary + rec, and through the binary without a command (its own echo must print the arguments byte for byte). Non-trivial = input has a quote or backslash (delimiter mode: a quote, backslash or non-UTF-8 byte) AND some cut falls inside a token / multi-byte character / at the 4096 edge. Distinct = distinct case JSON.",
+    rule: "exhaustive: every string up to the stated length over {a,SP,TAB,NL,',\",\\,é} x EVERY cut set of its byte stream (each string is one case, evaluations count string x cut-set pairs); random: byte strings up to ~20 KiB (tokens straddling the 4096-byte refill edge, long quoted runs, arbitrary bytes incl. invalid UTF-8, CR/FF/VT) x generated chunkings (1-byte, after-backslash, inside quotes, inside multi-byte characters, 4096-aligned), default mode and -0/-d C. Oracles: (i) chunking invariance against the single-read result, (ii) reference splitter written from the statement on its specified sub-domain, (iii) delimiter mode = non-empty fields, bytes unchanged; 1 in 30 random inputs (1 in 12 in delimiter mode) also through the xargs binary + rec, and through the binary without a command (its own echo must print the arguments byte for byte); in delimiter mode the fields additionally travel by a second route - -n 1, -I {}, or -I @@ with pre@@post - and must reach the recorder byte for byte. Non-trivial = input has a quote or backslash (delimiter mode: a quote, backslash or non-UTF-8 byte) AND some cut falls inside a token / multi-byte character / at the 4096 edge. Distinct = distinct case JSON.",
     assumptions: &[
         "the readers are reached through the feature-gated hook xargs::verif_hooks::read_args (the Read it wraps hands out caller-chosen chunk sizes); the end-to-end sample goes through the real binary and pipe",
         "a backslash at the very end of the input quotes nothing: it neither begins nor extends an argument; CR, FF and VT are neither blanks nor newlines: ordinary bytes of an argument",
